@@ -22,7 +22,7 @@ func quick(r *drv.Run) bool { return r.Tier != "thorough" }
 // digit, an upper-case letter, an underscore and one byte >= 0x80.
 func TextAlphaFor(alpha string) []byte {
 	out := []byte(alpha)
-	out = append(out, '\n', ' ', '1', 'A', '_', 0xC3)
+	out = append(out, '\n', ' ', '1', 'A', '_', 0xC3, '%')
 	if len(alpha) > 0 && alpha[0] >= 'a' && alpha[0] <= 'z' {
 		out = append(out, alpha[0]-32)
 	}
